@@ -34,6 +34,7 @@ from ..schema import (
     ObjectType,
     ScalarType,
     Schema,
+    is_introspection_type,
 )
 from .default_resolver import default_resolver
 from .instrumentation import Instrumentation
@@ -95,17 +96,24 @@ class Executor(ResolutionContext):
     def field_resolver(
         self, parent_type: ObjectType, field_definition: Field
     ) -> Resolver:
+        # The schema wide default resolver serves the user's types only: the
+        # introspection types rely on the library's own default resolver.
+        fallback = (
+            default_resolver
+            if is_introspection_type(parent_type)
+            else self._default_resolver
+        )
         base = (
             field_definition.resolver
             or parent_type.default_resolver
-            or self._default_resolver
+            or fallback
         )
         try:
             return self._resolver_cache[base]
         except KeyError:
             wrapped = (
                 self.runtime.wrap_callable(base)
-                if base is not self._default_resolver
+                if base is not fallback
                 else base
             )
             if self._middlewares:
